@@ -7,11 +7,18 @@ from vp.memenv import Program, Sandbox, concrete_region
 # root(x) -> mid(x) -> leaf(x); each inner edge may attach its own context args (which replace the inherited ones entirely)
 SRC = (
     "_EDGE = {'mid': None, 'leaf': None}\n"
+    "_STYLE = ['call']\n"
     "def _call(fn, name, x):\n"
     "    o = _EDGE[name]\n"
     "    if o is not None:\n"
     "        fn = fn.with_context_args(dict(o))\n"
-    "    return fn(x)\n"
+    "    return _invoke(fn, x)\n"
+    "def _invoke(fn, x):\n"
+    "    if _STYLE[0] == 'call':\n"
+    "        return fn(x)\n"
+    "    if _STYLE[0] == 'call_batch':\n"
+    "        return fn.call_batch([{'x': x}])[0]\n"
+    "    return fn.map_over_range(x=[x])[x]\n"
     "@m.memento_function(version='1')\n"
     "def leaf(x):\n"
     "    _trace.append(('leaf', x))\n"
@@ -41,18 +48,23 @@ def _eff(*chain):
     return cur or {}
 
 
+STYLES = ["call", "call_batch", "map_over_range"]
+
+
 @obligation(
     "C16.flow",
-    covers=("inherited", "overridden", "override-replaces-entirely", "premem-subcall"),
+    covers=("inherited", "overridden", "override-replaces-entirely", "premem-subcall", "style:call", "style:call_batch", "style:map_over_range"),
     split={"store": [0, 1, 2], "ri": list(range(len(CTX)))},
     bounds="chain root -> mid -> leaf; root context from a catalogue of 6 dictionaries (None, {}, one key, other value, other key, nested); "
            "override on each inner edge from a catalogue of 4 (none, {}, other key, same as root); every subset of {mid, leaf} memoized "
-           "beforehand under the effective context; 3 stores",
-    variables="choice: root context, two edge overrides, pre-memoized subset",
+           "beforehand under the effective context; every call of the scenario made as fn(x), through call_batch, or through "
+           "map_over_range; 3 stores",
+    variables="choice: root context, two edge overrides, pre-memoized subset, call style",
     budget_s={"quick": 170, "thorough": 600},
     choice_vars=4,
 )
-def flow(ri: int, mi: int, li: int, pre: int, store: int):
+def flow(ri: int, mi: int, li: int, pre: int, style: int, store: int):
+    style = pick(style, 3)
     mi = pick(mi, len(OVR))
     li = pick(li, len(OVR))
     pre = pick(pre, 4)
@@ -63,6 +75,9 @@ def flow(ri: int, mi: int, li: int, pre: int, store: int):
         try:
             prog.exec(SRC)
             prog._EDGE["mid"], prog._EDGE["leaf"] = mo, lo
+            prog._STYLE[0] = STYLES[style]  # how every call of the scenario is made: fn(x), call_batch, map_over_range
+            cover("style:" + STYLES[style])
+            inv_ = prog._invoke
             root, mid, leaf = prog.root, prog.mid, prog.leaf
             eff_root = _eff(rc)
             eff_mid = _eff(rc, mo)
@@ -76,14 +91,14 @@ def flow(ri: int, mi: int, li: int, pre: int, store: int):
             # pre-memoize sub-calls under their effective contexts (top-level calls with explicit context)
             if pre & 1:
                 cover("premem-subcall")
-                leaf.with_context_args(dict(eff_leaf))(1) if eff_leaf else leaf(1)
+                inv_(leaf.with_context_args(dict(eff_leaf)), 1) if eff_leaf else inv_(leaf, 1)
             if pre & 2:
                 prog._EDGE["mid"] = None
                 prog._EDGE["leaf"] = lo
-                (mid.with_context_args(dict(eff_mid))(1) if eff_mid else mid(1))
+                (inv_(mid.with_context_args(dict(eff_mid)), 1) if eff_mid else inv_(mid, 1))
                 prog._EDGE["mid"] = mo
             n0 = len(prog.trace)
-            r = (root.with_context_args(dict(rc)) if rc is not None else root)(1)
+            r = inv_(root.with_context_args(dict(rc)) if rc is not None else root, 1)
             check("value", r == 5, r)
             ran = [t[0] for t in list(prog.trace)[n0:]]
             expect_ran = ["root"] + ([] if pre & 2 else ["mid"] + ([] if pre & 1 else ["leaf"]))
@@ -108,14 +123,14 @@ def flow(ri: int, mi: int, li: int, pre: int, store: int):
             # identity: another context is another call
             other = {"a": 99}
             n1 = len(prog.trace)
-            root.with_context_args(other)(1)
+            inv_(root.with_context_args(other), 1)
             check("different-context-is-a-miss", ("root", 1, ()) in list(prog.trace)[n1:], list(prog.trace)[n1:])
             n2 = len(prog.trace)
-            rf(1)
+            inv_(rf, 1)
             check("same-context-is-a-hit", len(prog.trace) == n2, list(prog.trace)[n2:])
             if eff_root:
                 n3 = len(prog.trace)
-                root(1)
+                inv_(root, 1)
                 check("no-context-is-separate-from-context", len(prog.trace) > n3, None)
         finally:
             prog.close()
@@ -173,6 +188,71 @@ def prevent(ci: int, premem: bool, style: int, store: int):
             check("nested-body-did-not-run", ("inner", 1) not in list(prog.trace)[n0:], list(prog.trace)[n0:])
             r2 = outer.with_prevent_further_calls(False)(2)
             check("allowed-when-not-prevented", r2 == "ran", r2)
+        finally:
+            prog.close()
+            sb.close()
+
+
+@obligation(
+    "C16.prevent_inner",
+    covers=("guard-at-inner-edge", "sibling-unaffected"),
+    split={"store": [0, 1]},
+    bounds="top -> {outer (attached with_prevent_further_calls(True) at this INNER edge) -> inner, sibling}: inside the guarded call every "
+           "nested memento call raises RuntimeError and runs no body (memoized beforehand or not), while the caller that attached the guard "
+           "goes on calling other functions freely; nested call through call / call_batch / partial; guard attached via call / call_batch",
+    variables="choice: nested memoized bit, nested call style, guard style",
+    budget_s={"quick": 120, "thorough": 300},
+    choice_vars=3,
+)
+def prevent_inner(premem: bool, style: int, gstyle: int, store: int):
+    style = pick(style, 3)
+    gstyle = pick(gstyle, 2)
+    pm = True if premem else False
+    with concrete_region():
+        sb = Sandbox(kinds=STORES[store])
+        prog = Program("vpc16q")
+        try:
+            prog.exec(
+                "_STYLE = [0, 0]\n"
+                "@m.memento_function(version='1')\n"
+                "def inner(x, y=0):\n"
+                "    _trace.append(('inner', x))\n"
+                "    return x\n"
+                "@m.memento_function(version='1')\n"
+                "def sibling(x):\n"
+                "    _trace.append(('sibling', x))\n"
+                "    return inner(x + 10)\n"
+                "@m.memento_function(version='1')\n"
+                "def outer(x):\n"
+                "    _trace.append(('outer', x))\n"
+                "    try:\n"
+                "        if _STYLE[0] == 0:\n"
+                "            inner(x)\n"
+                "        elif _STYLE[0] == 1:\n"
+                "            inner.call_batch([{'x': x}])\n"
+                "        else:\n"
+                "            inner.partial(y=0)(x)\n"
+                "    except RuntimeError as e:\n"
+                "        return 'prevented: ' + type(e).__name__\n"
+                "    return 'ran'\n"
+                "@m.memento_function(version='1')\n"
+                "def top(x):\n"
+                "    _trace.append(('top', x))\n"
+                "    guarded = outer.with_prevent_further_calls(True)\n"
+                "    a = guarded(x) if _STYLE[1] == 0 else guarded.call_batch([{'x': x}])[0]\n"
+                "    b = sibling(x)\n"
+                "    return [a, b]\n"
+            )
+            prog._STYLE[0], prog._STYLE[1] = style, gstyle
+            if pm:
+                prog.inner(1)
+            n0 = len(prog.trace)
+            r = prog.top(1)
+            cover("guard-at-inner-edge")
+            check("nested-call-inside-the-guarded-call-fails-with-RuntimeError", r[0] == "prevented: RuntimeError", r)
+            check("nested-body-did-not-run", ("inner", 1) not in list(prog.trace)[n0:], list(prog.trace)[n0:])
+            cover("sibling-unaffected")
+            check("caller-that-attached-the-guard-keeps-calling-freely", r[1] == 11 and ("inner", 11) in list(prog.trace)[n0:], (r, list(prog.trace)[n0:]))
         finally:
             prog.close()
             sb.close()
